@@ -1302,7 +1302,7 @@ pub fn generate(sink: &mut Sink, seed: u64, thorough: bool) {
         if run.panicked || run.results.last().map(|s| s != "ok").unwrap_or(true) || run.file.len() < 2048 {
             continue;
         }
-        let ops = ["META", "XMLH", "RAWXML"];
+        let ops = ["META", "XMLH", "RAWXML", "CRC"];
         let base = run_ops(&run.file, &ops);
         if !base.starts_with("OPEN |") {
             continue;
@@ -1314,6 +1314,14 @@ pub fn generate(sink: &mut Sink, seed: u64, thorough: bool) {
             let bit = rng.below(8);
             f[pos] ^= 1 << bit;
             variants.push((f, format!("bit {bit} of header byte {pos} flipped")));
+        }
+        // length fields set to particular values (zero, one page, the true length of a shorter prefix)
+        for (pos, val, what) in [(16usize, 0u64, "file length field zeroed"), (16, 1024, "file length field set to one page"), (32, 0, "XML length field zeroed")] {
+            let mut f = run.file.clone();
+            if f[pos..pos + 8] != val.to_le_bytes() {
+                f[pos..pos + 8].copy_from_slice(&val.to_le_bytes());
+                variants.push((f, what.to_string()));
+            }
         }
         // header pointing at an older XML section of the same file
         let logical: Vec<u8> = run.file.chunks(1024).flat_map(|p| p[..1020].to_vec()).collect();
@@ -1338,8 +1346,14 @@ pub fn generate(sink: &mut Sink, seed: u64, thorough: bool) {
             let a: Vec<&str> = base.split(" | ").collect();
             let b: Vec<&str> = got.split(" | ").collect();
             // (the header bytes are not re-sealed: page 0 is invalid in every variant)
-            let ok = !got.starts_with("OPEN |") && (b.last().map(|x| *x == "RAWXML err").unwrap_or(false) || b.last() == a.last())
+            let part = |v: &Vec<&str>, key: &str| v.iter().find(|x| x.starts_with(key)).map(|x| x.to_string());
+            let raw_ok = part(&b, "RAWXML") == Some("RAWXML err".to_string()) || part(&b, "RAWXML") == part(&a, "RAWXML");
+            let ok = (!got.starts_with("OPEN |") && raw_ok)
                 || (a.len() == b.len() && a.iter().zip(b.iter()).all(|(x, y)| x == y || y.ends_with(" err")));
+            // whole-file validation fails exactly when a page is altered: page 0 is
+            if !b.iter().any(|x| *x == "CRC err") {
+                sink.fail("C07", "reader/validate-crc-misses-altered-header", &line, &format!("{what}: the checksum of page 0 no longer matches, yet validate_crc reports the file as intact"));
+            }
             if !ok {
                 sink.fail("C07", "reader/altered-header-trusted", &line, &format!("{what}: the checksum of page 0 no longer matches, yet the reader answers {} where the unaltered file answers {}", &got[..got.len().min(300)], &base[..base.len().min(300)]));
             }
